@@ -34,7 +34,7 @@ WORD = ["soil", "carbon", "flux", "lake", "data", "annual", "survey", "of", "the
 def plan(tier, seed):
     if tier == "quick":
         return [{"valid": 3000, "mutated": 1500}]
-    return [{"valid": 6000, "mutated": 3000, "salt": i} for i in range(16)]
+    return [{"valid": 50000, "mutated": 20000, "salt": i} for i in range(32)]
 
 
 def words(rng, k):
